@@ -31,10 +31,12 @@ Print Assumptions C11_flush_on_fatal_present.
    history of preceding messages (any number, sizes, types), EVERY buffering policy (when QFile
    decides to flush by itself), every initial file content: when qFatal(r) has been processed and
    the process is aborted, the file of every healthy file sink = what it held + every record that
-   passed the filters in front of that sink, in order ([expected]: the fatal record is the last one
-   iff it passes them) *)
-Theorem C11_fatal_reaches_disk : forall (pol : policy) (t : tree) (msgs : list msg) (r : rec),
-  survivors (run_fatal src_fatal_cfg pol t msgs r) = expected t (msgs ++ [(Fatal, r)]).
+   passed the filters in front of that sink and was written while its device accepted writes, in order
+   ([expected]: the fatal record is the last one iff it passes them and is accepted).  [rej] is an
+   arbitrary pattern of transient device faults: a rejected write loses that record and nothing else.
+   Null handler entries ([TNull]) are part of [tree]: skipped by the message loop and by the flush. *)
+Theorem C11_fatal_reaches_disk : forall (pol : policy) (rej : reject) (t : tree) (msgs : list msg) (r : rec),
+  survivors (run_fatal src_fatal_cfg pol rej t msgs r) = expected rej t (msgs ++ [(Fatal, r)]).
 Proof. exact (fatal_reaches_disk src_fatal_cfg C11_source_configuration_good). Qed.
 Print Assumptions C11_fatal_reaches_disk.
 
@@ -42,7 +44,7 @@ Print Assumptions C11_fatal_reaches_disk.
    file = previous content + ALL preceding records + the fatal one *)
 Theorem C11_fatal_reaches_disk_unfiltered : forall pol t msgs r,
   Forall (fun sg => snd sg = [] /\ broken (fst sg) = false) (gsinks t) ->
-  survivors (run_fatal src_fatal_cfg pol t msgs r)
+  survivors (run_fatal src_fatal_cfg pol no_faults t msgs r)
   = map (fun sg => Some (content (fst sg) ++ map snd msgs ++ [r])) (gsinks t).
 Proof. exact (fatal_reaches_disk_unfiltered src_fatal_cfg C11_source_configuration_good). Qed.
 Print Assumptions C11_fatal_reaches_disk_unfiltered.
@@ -50,21 +52,21 @@ Print Assumptions C11_fatal_reaches_disk_unfiltered.
 (* independent of the configuration: no step ever drops a record from (file ++ write buffer) and no
    record goes to a sink whose filters rejected it, so what a file lacks at abort is exactly what
    was still buffered *)
-Theorem C11_content_conserved : forall cfg pol t msgs r,
-  view (run_fatal cfg pol t msgs r) = map (upd_all (msgs ++ [(Fatal, r)])) (view t).
+Theorem C11_content_conserved : forall cfg pol rej t msgs r,
+  view (run_fatal cfg pol rej t msgs r) = map (upd_all rej (msgs ++ [(Fatal, r)])) (view t).
 Proof. exact content_conserved. Qed.
 Print Assumptions C11_content_conserved.
 
 (* the boolean oracle the check evaluates on the record ids found in the real files *)
-Theorem C11_oracle_holds : forall pol t msgs r,
-  prop_c11_b t msgs r (ids_of (survivors (run_fatal src_fatal_cfg pol t msgs r))) = true.
+Theorem C11_oracle_holds : forall pol rej t msgs r,
+  prop_c11_b rej t msgs r (ids_of (survivors (run_fatal src_fatal_cfg pol rej t msgs r))) = true.
 Proof. exact (oracle_holds src_fatal_cfg C11_source_configuration_good). Qed.
 Print Assumptions C11_oracle_holds.
 
 (* the repaired defect (DESIGN section 5, F2): the same code without the flush loses records under Qt's
    own buffering policy *)
 Theorem C11_no_flush_refuted : exists t msgs r,
-  survivors (run_fatal (with_pos src_fatal_cfg FNone) qfile_policy t msgs r) <> expected t (msgs ++ [(Fatal, r)]).
+  survivors (run_fatal (with_pos src_fatal_cfg FNone) qfile_policy no_faults t msgs r) <> expected no_faults t (msgs ++ [(Fatal, r)]).
 Proof.
   exists (TPipe [TSink (fresh 0 false false)]), [info 0 11; info 1 11; info 2 11], (mk 3 14).
   vm_compute. discriminate.
@@ -73,7 +75,7 @@ Print Assumptions C11_no_flush_refuted.
 
 (* flushing BEFORE the fatal record is processed is not enough *)
 Theorem C11_flush_before_refuted : exists t msgs r,
-  survivors (run_fatal (with_pos src_fatal_cfg FBefore) qfile_policy t msgs r) <> expected t (msgs ++ [(Fatal, r)]).
+  survivors (run_fatal (with_pos src_fatal_cfg FBefore) qfile_policy no_faults t msgs r) <> expected no_faults t (msgs ++ [(Fatal, r)]).
 Proof.
   exists (TPipe [TSink (fresh 0 false false)]), [info 0 11], (mk 1 14). vm_compute. discriminate.
 Qed.
@@ -81,7 +83,7 @@ Print Assumptions C11_flush_before_refuted.
 
 (* a flush that does not enter nested pipelines misses the sinks inside them *)
 Theorem C11_no_descend_refuted : exists t msgs r,
-  survivors (run_fatal (with_descends src_fatal_cfg false) qfile_policy t msgs r) <> expected t (msgs ++ [(Fatal, r)]).
+  survivors (run_fatal (with_descends src_fatal_cfg false) qfile_policy no_faults t msgs r) <> expected no_faults t (msgs ++ [(Fatal, r)]).
 Proof.
   exists (TPipe [TOther; TPipe [TOther; TSink (fresh 0 false false)]]), [info 0 11], (mk 1 14).
   vm_compute. discriminate.
@@ -91,7 +93,7 @@ Print Assumptions C11_no_descend_refuted.
 (* a flush performed by the sink when the fatal record arrives (instead of by the logger) misses the
    sinks the fatal record does not reach: a debug-only trace file next to the main file *)
 Theorem C11_flush_in_sink_refuted : exists t msgs r,
-  survivors (run_fatal (flush_in_sink src_fatal_cfg) qfile_policy t msgs r) <> expected t (msgs ++ [(Fatal, r)]).
+  survivors (run_fatal (flush_in_sink src_fatal_cfg) qfile_policy no_faults t msgs r) <> expected no_faults t (msgs ++ [(Fatal, r)]).
 Proof.
   exists (TPipe [TOther; TPipe [TFilter (is_type Debug); TSink (fresh 0 false false)]; TSink (fresh 1 false false)]),
          [(Debug, mk 0 11); info 1 11], (mk 2 14).
@@ -99,24 +101,46 @@ Proof.
 Qed.
 Print Assumptions C11_flush_in_sink_refuted.
 
+(* every record written while the device accepts is on disk after the fatal flush; the rejected ones and
+   only those are missing: stated for a single sink without filters *)
+Theorem C11_transient_fault_loses_only_the_rejected_records : forall pol rej s msgs r,
+  broken s = false ->
+  survivors (run_fatal src_fatal_cfg pol rej (TPipe [TSink s]) msgs r)
+  = [Some (content s ++ map snd (filter (fun m => negb (rej (sid s) (snd m))) (msgs ++ [(Fatal, r)])))].
+Proof.
+  intros pol rej s msgs r Hb. rewrite C11_fatal_reaches_disk. unfold expected, gsinks. cbn [gs app map fst snd].
+  rewrite Hb. reflexivity.
+Qed.
+Print Assumptions C11_transient_fault_loses_only_the_rejected_records.
+
+(* null handler entries change nothing: the same files as without them *)
+Theorem C11_null_entries_are_inert : forall pol rej l msgs r,
+  survivors (run_fatal src_fatal_cfg pol rej (TPipe (TNull :: l)) msgs r)
+  = survivors (run_fatal src_fatal_cfg pol rej (TPipe l) msgs r).
+Proof. intros. rewrite !C11_fatal_reaches_disk. reflexivity. Qed.
+Print Assumptions C11_null_entries_are_inert.
+
 (* non-vacuity: a formatter, a debug-only trace file in a nested pipeline, a sink on a full device in
    front of a healthy plain sink, a nested pipeline holding a size-limited rotating sink behind a
    filter that rejects the fatal message, and a second-level pipeline with another plain sink;
    records below, at and above QFile's 16 KiB chunk *)
 Example C11_nonvacuous :
-  let t := TPipe [TOther; TPipe [TFilter (is_type Debug); TSink (fresh 0 false false)];
+  let t := TPipe [TOther; TNull; TPipe [TFilter (is_type Debug); TNull; TSink (fresh 0 false false)];
                   TSink (fresh 1 false true); TSink (fresh 2 false false);
                   TPipe [TFilter (fun m => negb (is_type Fatal m)); TSink (fresh 3 true false); TPipe [TSink (fresh 4 false false)]]] in
   let msgs := [(Debug, mk 0 11); (Warning, mk 1 20481); info 2 11; (Debug, mk 3 16384)] in
-  ids_of (survivors (run_fatal src_fatal_cfg qfile_policy t msgs (mk 4 14)))
+  ids_of (survivors (run_fatal src_fatal_cfg qfile_policy no_faults t msgs (mk 4 14)))
     = [Some [0; 3]; None; Some [0; 1; 2; 3; 4]; Some [0; 1; 2; 3]; Some [0; 1; 2; 3]]
   /\ (* the same run killed right after the last ordinary message: what Qt's policy had flushed *)
-  ids_of (survivors (log_all src_fatal_cfg qfile_policy t msgs)) = [Some [0]; None; Some [0; 1; 2]; Some [0; 1; 2]; Some [0; 1; 2]]
+  ids_of (survivors (log_all src_fatal_cfg qfile_policy no_faults t msgs)) = [Some [0]; None; Some [0; 1; 2]; Some [0; 1; 2]; Some [0; 1; 2]]
   /\ (* the flush moved into the sink: the trace file and the files behind the fatal-rejecting filter lose records *)
-  ids_of (survivors (run_fatal (flush_in_sink src_fatal_cfg) qfile_policy t msgs (mk 4 14)))
+  ids_of (survivors (run_fatal (flush_in_sink src_fatal_cfg) qfile_policy no_faults t msgs (mk 4 14)))
     = [Some [0]; None; Some [0; 1; 2; 3; 4]; Some [0; 1; 2]; Some [0; 1; 2]]
   /\ (* F2 as it was: no flush at all; the plain file stays empty, the rotating file lacks the fatal record *)
-  ids_of (survivors (run_fatal (with_pos src_fatal_cfg FNone) qfile_policy
+  ids_of (survivors (run_fatal (with_pos src_fatal_cfg FNone) qfile_policy no_faults
                        (TPipe [TSink (fresh 0 false false); TSink (fresh 1 true false)]) [info 0 11; info 1 11; info 2 11] (mk 3 14)))
-    = [Some []; Some [0; 1; 2]].
+    = [Some []; Some [0; 1; 2]]
+  /\ (* a transient fault: the device of sink 2 rejects record 1, everything else is there *)
+  ids_of (survivors (run_fatal src_fatal_cfg qfile_policy (fun i r => (i =? 2) && (rid r =? 1)) t msgs (mk 4 14)))
+    = [Some [0; 3]; None; Some [0; 2; 3; 4]; Some [0; 1; 2; 3]; Some [0; 1; 2; 3]].
 Proof. vm_compute. repeat split. Qed.
